@@ -197,11 +197,15 @@ Definition check_parse (c : pcase) : bool :=
   | _, _ => false
   end.
 
-(* what the written file must show for a deck without FILL: ids handed to
-   pot_convert (model) against the VOLU ids read back, both sorted by the harness *)
-Definition check_conv (c : pcase * list Z) : bool :=
-  match run_case (fst c) with
-  | Ok (cells, _) => list_eqb Z.eqb (conv_keys FS cells) (snd c)
+(* what a whole conversion must show for a deck without FILL: the VOLU ids of
+   the file (in the order of the cell dictionary) and the list of the NOTE on
+   stdout (None: no NOTE) *)
+Definition check_conv (c : pcase * list Z * option (list Z)) : bool :=
+  let '(pc, volu, nt) := c in
+  match run_case pc with
+  | Ok (cells, skipped) =>
+      list_eqb Z.eqb (written_ids FS cells skipped) volu
+      && option_eqb (list_eqb Z.eqb) (note skipped) nt
   | Err _ => false
   end.
 
